@@ -10,8 +10,9 @@ func init() {
 		ID: "C24", Harness: "sched", Inst: []string{"task/backend/scheduler", "task/backend/coordinator"}, Level: "exploration",
 		Classes: []string{"C24:", "busy-wait", "deadlock"},
 		Cfgs: []cfgSpec{
-			{Name: "all", Cfg: "", Gating: true, Share: 1},
-			{Name: "calm", Cfg: "calm,fast", Gating: true, Share: 1},
+			{Name: "fast", Cfg: "fast", Gating: true, Share: 2},
+			{Name: "calm", Cfg: "calm,fast", Gating: true, Share: 2},
+			{Name: "slow", Cfg: "slow", Gating: true, Share: 1},
 		},
 		QuickSecs: 40, ThoroughSecs: 600,
 		Rule: "one case = one generated Schedule/re-Schedule/Release/clock-advance program (1-4 tasks, every and cron specs, offsets, LastScheduled up to 3.8 periods in the past, " +
@@ -23,6 +24,7 @@ func init() {
 			"a run belongs to the Schedule call whose successive Next() values it continues; after a re-Schedule returned, one run of the replaced schedule (the one already handed to a worker) may still start",
 			"quiescent point = the main goroutine has just slept on the virtual clock and is not on the grid of due times, so every other goroutine is blocked; When() and 'due run with idle worker has started (bound 2 s)' are judged only there",
 			"configuration calm: a task due every second is always scheduled and operations that release or re-schedule a task whose pending run is already due are skipped, so that the known spin after removing the earliest item does not mask the other oracles; executor durations are 0 there",
+			"configuration fast: every operation allowed, executor durations 0; configuration slow: every operation allowed, executor durations 0, 0.3, 1, 1.5, 3 periods",
 		},
 	})
 	reg(&checkSpec{
